@@ -59,6 +59,19 @@ Example write_error_fatal_now_bad :
   recorded_healthy (ro_content (w_run r)) 4 = false.
 Proof. vm_compute. repeat split. Qed.
 
+(* a short count (half the block written) at stripe 5, single-thread mode: fatal, the stripe is marked bad, its block is junk *)
+Example write_short_count_now_bad :
+  let r := sync_loop_w hz 1024 1 wo 7 wfs (fun _ => []) (fun pos l => if Nat.eqb pos 5 then classify_pwrite 1024 (PwCount 512) else WOk) Mono (fun _ _ => 1)
+                       (seq 0 8) None 0 [] [] wc wpar 0 0 0 in
+  ro_bailed (w_run r) = true /\ run_failing (w_run r) = true /\ w_fpos r = [5] /\
+  recorded_healthy (ro_content (w_run r)) 5 = false /\ nth 5 (nth 0 (ro_parity (w_run r)) []) PNone = PJunk 0 /\
+  recorded_healthy (ro_content (w_run r)) 6 = false.
+Proof. vm_compute. repeat split. Qed.
+Example prehash_nonvacuous :
+  hash_failing (hash_phase [HOk; HOk; HEio; HOk]) = true /\ h_skip (hash_phase [HOk; HOk; HEio; HOk]) = true /\
+  h_nio (hash_phase [HOk; HOk; HEio; HOk]) = 1 /\ hash_failing (hash_phase [HOk; HOk]) = false.
+Proof. vm_compute. repeat split. Qed.
+
 (* non-vacuity of read_error_safe and error_limit: an EIO reading disk 0 at stripe 2 of the witness array *)
 Example read_error_safe_nonvacuous :
   let r := sync_stripe hz 1024 1 wo 7 0 wc [PJunk 3] wfs [Some RdIoCont] 2 in
